@@ -3,6 +3,7 @@ package main
 import (
 	"bufio"
 	"crypto/sha1"
+	"crypto/tls"
 	"encoding/base64"
 	"fmt"
 	"net"
@@ -50,6 +51,10 @@ func tunnelHandshakeCases() []Case {
 			out = append(out, Case{Flow: fl, Devs: []Dev{{b, 0}}})
 		}
 	}
+	// rtsps without a tunnel: the TLS handshake is the first exchange, the peer misbehaves in it
+	for _, b := range []string{"hs-accept-then-silent", "hs-read-request-then-silent", "hs-partial-head-then-silent", "hs-close-at-once", "hs-close-after-request", "hs-garbage"} {
+		out = append(out, Case{Flow: "tls-hs", Devs: []Dev{{b, 0}}})
+	}
 	return out
 }
 
@@ -72,6 +77,7 @@ func runHandshake(cs Case, mark func(step string)) *ExecResult {
 	res := &ExecResult{Case: cs, Applied: []bool{true}}
 	behaviour := cs.Devs[0].Name
 	ws := cs.Flow == "tunnel-ws-hs"
+	tlsHS := cs.Flow == "tls-hs"
 	baseline := clientGoroutines()
 	env := sysx.NewEnv()
 	ln, err := env.Net.Listen("tcp", srvAddr)
@@ -100,6 +106,14 @@ func runHandshake(cs Case, mark func(step string)) *ExecResult {
 				br := bufio.NewReader(c)
 				var wsAccept string
 				readReq := func() { http.ReadRequest(br) } //nolint:errcheck
+				if tlsHS {
+					// the client's first flight (ClientHello): its record header and body
+					readReq = func() {
+						if h, err := br.Peek(5); err == nil {
+							br.Discard(5 + int(h[3])<<8 + int(h[4])) //nolint:errcheck
+						}
+					}
+				}
 				wait := func(d time.Duration) {
 					t := vtime.NewTimer(d)
 					select {
@@ -125,7 +139,11 @@ func runHandshake(cs Case, mark func(step string)) *ExecResult {
 					readReq()
 				case "hs-partial-head-then-silent":
 					readReq()
-					c.Write([]byte("HTTP/1.1 200 OK\r\nCache-")) //nolint:errcheck
+					if tlsHS {
+						c.Write([]byte{0x16, 0x03, 0x03}) //nolint:errcheck // the start of a handshake record
+					} else {
+						c.Write([]byte("HTTP/1.1 200 OK\r\nCache-")) //nolint:errcheck
+					}
 				case "hs-close-at-once":
 					c.Close()
 					return
@@ -172,9 +190,13 @@ func runHandshake(cs Case, mark func(step string)) *ExecResult {
 		}
 	}()
 	c := env.NewClient(func(c *gortsplib.Client) {
-		if ws {
+		switch {
+		case tlsHS:
+			c.Scheme = "rtsps"
+			c.TLSConfig = &tls.Config{InsecureSkipVerify: true}
+		case ws:
 			c.Tunnel = gortsplib.TunnelWebSocket
-		} else {
+		default:
 			c.Tunnel = gortsplib.TunnelHTTP
 		}
 		c.OnTransportSwitch = func(error) {}
@@ -183,6 +205,9 @@ func runHandshake(cs Case, mark func(step string)) *ExecResult {
 	})
 	x := &execCtx{env: env, c: c, res: res, mark: mark}
 	u := sysx.MustURL("rtsp://" + srvAddr + "/stream")
+	if tlsHS {
+		u = sysx.MustURL("rtsps://" + srvAddr + "/stream")
+	}
 	res.Seq = []string{"TUNNEL-HANDSHAKE"}
 	if err, _ := x.call("start", func() error { return c.Start() }); err == nil && !x.hung {
 		x.call("describe", func() error { _, _, err := c.Describe(u); return err }) //nolint:errcheck
